@@ -319,9 +319,46 @@ def _cmp(a):
     return None
 
 
+def base_scope_lookups(ctx):
+    """R06.8: unqualified lookup searches a class, then its bases' members, then the scopes ENCLOSING the class - never
+    the scopes enclosing a base ([basic.lookup.unqual], [class.member.lookup]).  CPPScope's find_* functions do this with
+    a `recurse` flag: the call on a base's scope must pass false, or a same-named type from the base's namespace shadows
+    the one C++ selects."""
+    db = ctx.db
+    ctx.rule("R06.8", "in CPPScope::find_type / find_symbol / find_template, every lookup made on a base class's scope (st->_scope->find_X(...)) passes recurse = false")
+    n = 0
+    for f in db.functions:
+        if not f.name.startswith("CPPScope::find_"):
+            continue
+        short = f.name.split("::")[-1]
+        for c in f.walk():
+            if c.get("k") != "call" or callee_short(c) != short or "this" not in c:
+                continue
+            subj = strip_casts(peel(c["this"]))
+            # through a struct's _scope member (a base), not through _parent_scope
+            if not (subj is not None and subj.get("k") == "mem" and subj.get("n", "").endswith("CPPStructType::_scope")):
+                continue
+            n += 1
+            # the recurse parameter of the callee: the bool one
+            callee = [g for g in db.fns(c.get("f", "")) if g.sig == c.get("s")]
+            idx = None
+            if callee:
+                for i, pp in enumerate(callee[0].params):
+                    if pp["t"] == "bool":
+                        idx = i
+            arg = c["a"][idx] if idx is not None and idx < len(c.get("a", [])) else None
+            if arg is not None and arg.get("k") == "defarg":
+                arg = arg.get("e")
+            ok = arg is not None and const_int(arg) == 0
+            ctx.ob("R06.8", "%s(%s)|base-scope-lookup|non-recursive" % (f.name, len(f.params)), ok, f.loc(c),
+                   "the lookup on the base's scope passes recurse = %s" % (show(arg) if arg is not None else "?"))
+    ctx.floor("R06.8", "lookups on base-class scopes", n, 4)
+
+
 def run(ctx):
     db = ctx.db
     nesting_tests(ctx)
+    base_scope_lookups(ctx)
     rebuild_rules(ctx, "R06.5")
     changed_flag_rules(ctx, "R06.6")
     ctx.rule("R06.1", "every field a (non-copy) constructor initialises from a parameter is read by the class's structural is_less() and is_equal()")
